@@ -117,21 +117,25 @@ def run(F, rep, tier):
     M2 = copy.copy(M)
     M2.trees = dict(M.trees)
 
+    target = sorted(L.tree_thresholds(M.trees[("Post", "write")]))[-1]
+
     def bump(items):
         out = []
         for it in items:
             if it[0] == "gate":
                 f = it[1]
-                if f[0] == "gte" and (f[1], f[2]) == (3, 8):
-                    f = ("gte", 3, 9, f[3])
+                if f[0] == "gte" and (f[1], f[2]) == target:
+                    f = ("gte", f[1], f[2] + 1, f[3])
                 out.append(("gate", f, bump(it[2]), bump(it[3])))
             else:
                 out.append(it)
         return out
     M2.trees[("Post", "write")] = bump(M.trees[("Post", "write")])
+    M2.thresholds = set(M.thresholds) | {(target[0], target[1] + 1)}
+    M2.classes = sorted(M2.thresholds)
     r2 = common.Report("ctl", "quick")
     model.rule_L1(r2, M2, structs=["Post"])
-    rep.control("L1 fires when Post::write's hitlag gate moves from 3.8 to 3.9", bool(r2.violations))
+    rep.control("L1 fires when the last gate of Post::write moves by one minor version", bool(r2.violations))
     p = emission.Poly.atom("END") * (emission.Poly.const(1) + emission.Poly.atom("sz"))
     rep.control("polynomial comparison distinguishes END*(1+sz) from (1+sz)", p != emission.Poly.const(1) + emission.Poly.atom("sz"))
     rep.trusted += ["byteorder read_*/write_* of the same width and endianness are mutually inverse on all bit patterns (incl. NaN payloads)",
